@@ -177,7 +177,7 @@ fn explore(ctx: &mut Ctx) {
     vcore::model::self_check().expect("reference model self-check failed");
 
     // (a) every subset of every universe n <= N
-    let nmax = ctx.tier.pick(10, 15);
+    let nmax = ctx.tier.pick(12, 15);
     for n in 0..=nmax {
         for word in 0..(1u64 << n) {
             let c = Case::Subset { n, word };
